@@ -152,6 +152,11 @@ RouteOK(c, r) == /\ (r.host \in {"direct", "directUpper", "directExcl"} => c.dd)
                  /\ (c.ct # "none" => r.host \in {"origin", "direct", "lo4"} /\ r.kind # "MITMGET"
                                       /\ BaseHop(c.up).k \in {"direct", "http"})
 RouteAll == {x \in RouteCfgs \X RouteReqs : RouteOK(x[1], x[2])}
+\* krb: Kerberos authentication towards the upstream proxy is switched on (http_proxy.go pacProxy / upstreamProxyURL take
+\* another branch then); the route is decided as without it
+KrbCfgs == [tf : {"off"}, auth : {FALSE}, lh : {"allow"}, deny : {FALSE}, dd : {FALSE}, ct : {"none"}, krb : {TRUE},
+            up : {[t |-> "pac", v |-> r] : r \in {"DIRECT", "empty", "PROXY_A", "HTTPS_B", "throws"}} \cup {[t |-> "static", v |-> "HTTP_A"]}]
+KrbAll == KrbCfgs \X [kind : RouteKinds, host : {"origin"}, cred : {"none"}, via : {"none"}, pos : {"first"}]
 
 ViaCfgs == [tf : {"off"}, auth : {FALSE}, lh : {"allow"}, deny : {FALSE}, dd : {FALSE}, up : {NoUp, [t |-> "static", v |-> "HTTP_A"]}, ct : {"none"}]
 ViaReqs == [kind : {"GET", "GET10", "POST", "CONNECT", "MITMGET"}, host : {"origin"}, cred : {"none"}, via : ViaClasses, pos : {"first", "afterOK"}]
@@ -199,7 +204,7 @@ InitAccess == gen = "access" /\ \E x \in Pick(AccessSample, AccessAll) \cup (IF 
                   cfg = x[1] /\ req = x[2] /\ out = Decide(x[1], x[2])
 \* every (kind, host, upstream) triple is always run without connect-to rules
 RouteBase == {x \in RouteAll : x[1].ct = "none" /\ x[1].lh = "allow" /\ x[1].dd = (x[2].host \in {"direct", "directUpper", "directExcl"})}
-InitRoute  == gen = "route"  /\ \E x \in Pick(RouteSample, RouteAll) \cup (IF RouteSample = 0 THEN {} ELSE RouteBase) :
+InitRoute  == gen = "route"  /\ \E x \in Pick(RouteSample, RouteAll) \cup (IF RouteSample = 0 THEN {} ELSE RouteBase) \cup KrbAll :
                   cfg = x[1] /\ req = x[2] /\ out = Decide(x[1], x[2])
 InitVia    == gen = "via"    /\ cfg \in ViaCfgs /\ req \in ViaReqs /\ out = Decide(cfg, req)
 InitCred   == gen = "cred"   /\ \E x \in Pick(CredSample, CredAll) : cfg = x[1] /\ req = x[2] /\ out = CredExpect(x[1], x[2])
